@@ -34,7 +34,7 @@ ARGS = [('R', 'R', 'L'), ('R', 'L'), ('R', 'R'), ('R', 'B', 'L'), ('L', 'L', 'R'
 # directed corner programs (run by shard 0 on every argument / caller combination below)
 DIRECTED = [
     'return (--0.0, -0.0, ---0.0, -(-0.0), - -0, +x1, -(0 * x1))',
-    'return (-1e3, -2.5, -7, -7.0, -0.001, - 1e3, -(1e3))',
+    'return (-1e3, -2.5, -7, -7.0, -0.001, - 1e3, -(1e3), -(-100), --7, -(-2.5), - - -9)',
     'with C3:\n        with fp.MPFloatContext(9 + 2):\n            v = x1 / 3\n        w = x1 / 3\n    return (v, w, x1 / 3)',
     'with fp.INTEGER:\n        with fp.MPFloatContext(2.5 * 2 + 6) as c:\n            v = x1 / 3\n        w = x1 / 3\n    return (v, w)',
     'with F8:\n        if x1 > 0:\n            return x1 / 3\n        v = x1 * 3\n    return v / 7',
@@ -74,7 +74,13 @@ def directed_sources():
 def compare(res, fp, genrun, refsem, src_shown, mod, ref, args, ctx, rich, amb, tag=None):
     """one (program, args, caller context) comparison; returns False when a violation was recorded"""
     try:
-        e = ref.run('f', copy.deepcopy(args), ctx)
+        out = genrun.guarded(lambda: ref.run('f', copy.deepcopy(args), ctx), timeout=10.0)
+        if out[0] == 'timeout':
+            res.count('ref_timeout')
+            return True
+        if out[0] == 'exc':
+            raise out[1]
+        e = out[1]
     except refsem.Ambiguous as a:
         res.count('ref_open')
         key = str(a)[:60]
@@ -124,7 +130,7 @@ def shard(i: int, n: int, tier: str, seed: int) -> Result:
     res = Result(PROP, tier, seed)
     rng = random.Random(seed * 424243 + i)
     quick = tier == 'quick'
-    nprog = (2400 if quick else 40000) // n
+    nprog = (8000 if quick else 60000) // n
     ninputs = 6 if quick else 10
     callers = [None, None, fp.FP32, fp.MPFloatContext(5), fp.REAL, fp.FixedContext(True, -3, 12, fp.RM.RTZ, fp.OV.SATURATE), fp.IEEEContext(4, 8, fp.RM.RTN),
                fp.MPSFloatContext(3, -4, fp.RM.RAZ)]
